@@ -39,6 +39,12 @@ func c39renderModel(m []c39kv) string {
 	return "[" + sb.String() + "]"
 }
 
+type c39source struct {
+	tags b6.Tags
+	want string
+	from string
+}
+
 func init() {
 	keys := []string{"a", "b", "c", "d", "e", "#f", "@g", "h:i"}
 	core.Register(&core.Monitor{
@@ -66,6 +72,7 @@ func init() {
 			var tags b6.Tags
 			var model []c39kv
 			var script []string
+			var sources []c39source // earlier arguments of MergeFrom, with what they must keep reading
 			find := func(k string) int {
 				for i, kv := range model {
 					if kv.k == k {
@@ -214,6 +221,16 @@ func init() {
 						if got := c39render(other); got != c39renderModel(om) {
 							c.Violate("MergeFrom:source-changed", nil, "%s changed its argument to %s", desc, got)
 						}
+						// ... nor by anything done to the merged list afterwards, and the other way round: the
+						// two lists are separate values from now on. The source is kept, edited itself once,
+						// and looked at again after every later operation.
+						if len(other) > 0 && r.Bool() {
+							other[0].Value = b6.NewStringExpression("source-edited")
+							om = append([]c39kv{{om[0].k, "source-edited"}}, om[1:]...)
+						}
+						other.AddTag(b6.Tag{Key: "source-only", Value: b6.NewStringExpression("s")})
+						om = append(om[:len(om):len(om)], c39kv{"source-only", "s"})
+						sources = append(sources, c39source{other, c39renderModel(om), desc})
 					case 5: // Clone, then mutate the clone: the original must not move
 						desc = "Clone+mutate"
 						cl := tags.Clone()
@@ -248,6 +265,12 @@ func init() {
 				if got, want := c39render(tags), c39renderModel(model); got != want {
 					c.Violate(opname+":wrong-list", map[string]any{"script": script}, "%s on %s gave %s, the ordered-map model gives %s", desc, before, got, want)
 					break
+				}
+				for _, src := range sources {
+					if got := c39render(src.tags); got != src.want {
+						c.Violate("MergeFrom:source-shares-storage", map[string]any{"script": script}, "after %s, the list that was the argument of %s reads %s, expected %s", desc, src.from, got, src.want)
+						return
+					}
 				}
 				// lookups
 				for _, k := range keys {
